@@ -568,6 +568,7 @@ func runC19(c *Ctx, r *Report) {
 	r.Rule("R19.8", "no os.Exit site outside the documented keep-list is reachable from stream.Stream (an exit mid-stream skips the temp-file cleanup)")
 	checkExitSites(c, r, "R19.8", true)
 	c19PerFileState(c, r)
+	c19Encodings(c, r)
 }
 
 func isStringType(t types.Type) bool {
@@ -811,4 +812,148 @@ func c19PerFileState(c *Ctx, r *Report) {
 		r.Check(called && len(outside) == 0, "R19.6b", "lib."+name+" is applied by the per-file parse", c.Rel(target.Pos()), "called under ParseCommandLine, not from the entry point",
 			fmt.Sprintf("lib.%s: called under climain.ParseCommandLine=%v; called from the entry point: %v — with -I only the first file would be processed with the setting freshly applied, so later files differ from what the same command prints for them alone", name, called, outside))
 	}
+}
+
+// c19Encodings (R19.9): in-place mode writes back in the encoding it read.
+func c19Encodings(c *Ctx, r *Report) {
+	r.Rule("R19.9", "in-place mode writes back in the encoding it read: (a) WrapOutputHandle has an explicit case — a compressing writer or a refusal — for every decompressing constant of TFileInputEncoding, so that its default arm passes through plain input only; (b) FindInputEncoding recognises the same file-name suffixes, with the same meaning, as the read path (openEncodedHandleForRead). A decompressor the write side does not know leaves plain text under the compressed file's name")
+	p := c.Pkg("pkg/lib")
+	if p == nil {
+		r.Undecided("R19.9", "pkg/lib", "", "package not loaded")
+		return
+	}
+	encT, _ := p.Types.Scope().Lookup("TFileInputEncoding").(*types.TypeName)
+	if encT == nil {
+		r.Undecided("R19.9", "TFileInputEncoding", "", "type not found")
+		return
+	}
+	consts := map[int64]string{}
+	for _, nm := range p.Types.Scope().Names() {
+		if k, ok := p.Types.Scope().Lookup(nm).(*types.Const); ok && types.Identical(k.Type(), encT.Type()) {
+			if v, ok := constant.Int64Val(k.Val()); ok {
+				consts[v] = nm
+			}
+		}
+	}
+	// (a) cases of WrapOutputHandle
+	wrap := c.SSAFunc(c.LookupFunc("pkg/lib", "WrapOutputHandle"))
+	if wrap == nil || wrap.Blocks == nil {
+		r.Undecided("R19.9", "WrapOutputHandle", "", "function not found")
+	} else {
+		var enc *ssa.Parameter
+		for _, prm := range wrap.Params {
+			if types.Identical(prm.Type(), encT.Type()) {
+				enc = prm
+			}
+		}
+		handled := map[int64]bool{}
+		for _, b := range wrap.Blocks {
+			for _, in := range b.Instrs {
+				if cmp, ok := in.(*ssa.BinOp); ok && cmp.Op == token.EQL && enc != nil && cmp.X == ssa.Value(enc) {
+					if k, ok := cmp.Y.(*ssa.Const); ok && k.Value != nil {
+						if v, ok := constant.Int64Val(k.Value); ok {
+							handled[v] = true
+						}
+					}
+				}
+			}
+		}
+		for v, nm := range consts {
+			if strings.HasSuffix(nm, "Default") {
+				continue
+			}
+			r.Check(handled[v], "R19.9", "WrapOutputHandle: case "+nm, c.Rel(wrap.Pos()), "explicit case",
+				"WrapOutputHandle has no case for "+nm+": input read through that decompressor is written back as plain text under the same (compressed-looking) name")
+		}
+	}
+	// (b) suffix tables of the two siblings
+	suffixes := func(fn *ssa.Function) map[string]string {
+		out := map[string]string{}
+		if fn == nil || fn.Blocks == nil {
+			return nil
+		}
+		for _, b := range fn.Blocks {
+			iff, ok := b.Instrs[len(b.Instrs)-1].(*ssa.If)
+			if !ok {
+				continue
+			}
+			call, ok := iff.Cond.(*ssa.Call)
+			if !ok || CalleeName(&call.Call) != "strings.HasSuffix" {
+				continue
+			}
+			k, ok := call.Call.Args[1].(*ssa.Const)
+			if !ok || k.Value == nil || k.Value.Kind() != constant.String {
+				continue
+			}
+			// what the true arm does: the decompressor constructor it calls, or the constant it returns
+			what := "?"
+			for _, in := range b.Succs[0].Instrs {
+				switch x := in.(type) {
+				case *ssa.Call:
+					cn := CalleeName(&x.Call)
+					cn = strings.ToLower(cn)
+					for _, z := range []string{"bzip2", "gzip", "zlib", "zstd"} {
+						if strings.Contains(cn, z) {
+							what = z
+						}
+					}
+				case *ssa.Return:
+					if len(x.Results) > 0 {
+						if kc, ok := x.Results[0].(*ssa.Const); ok && kc.Value != nil && kc.Value.Kind() == constant.Int {
+							if v, ok := constant.Int64Val(kc.Value); ok {
+								nm := strings.ToLower(consts[v])
+								for _, z := range []string{"bzip2", "gzip", "zlib", "zstd"} {
+									if strings.Contains(nm, z) {
+										what = z
+									}
+								}
+							}
+						}
+					}
+				}
+			}
+			out[constant.StringVal(k.Value)] = what
+		}
+		return out
+	}
+	var rd *ssa.Function
+	for _, fobj := range c.FuncsOfPkg(p) {
+		fn := c.SSAFunc(fobj)
+		if fn == nil {
+			continue
+		}
+		hasEnc, hasHandle := false, false
+		for _, prm := range fn.Params {
+			if types.Identical(prm.Type(), encT.Type()) {
+				hasEnc = true
+			}
+			if strings.HasSuffix(prm.Type().String(), "io.ReadCloser") {
+				hasHandle = true
+			}
+		}
+		if hasEnc && hasHandle {
+			rd = fn
+		}
+	}
+	find := c.SSAFunc(c.LookupFunc("pkg/lib", "FindInputEncoding"))
+	a, b := suffixes(rd), suffixes(find)
+	if a == nil || b == nil || len(a) == 0 {
+		r.Undecided("R19.9", "suffix tables", "", "the read path's or FindInputEncoding's suffix tests were not found")
+		return
+	}
+	var keys []string
+	for k := range a {
+		keys = append(keys, k)
+	}
+	for k := range b {
+		if _, ok := a[k]; !ok {
+			keys = append(keys, k)
+		}
+	}
+	sort.Strings(keys)
+	for _, k := range keys {
+		r.Check(a[k] == b[k] && a[k] != "?", "R19.9", "suffix "+k, c.Rel(find.Pos()), "read path and FindInputEncoding agree: "+a[k],
+			fmt.Sprintf("the read path treats a file name ending in %q as %q, FindInputEncoding as %q: in-place mode decompresses such a file while reading and writes it back in another encoding", k, a[k], b[k]))
+	}
+	r.Floor("R19.9", "file-name suffixes of the read path", len(a), 3)
 }
